@@ -124,6 +124,7 @@ def generate(repo, outdir):
         harnesses.append(dict(name='clif_' + name.lower(), kind='contract', opcode=name))
     harnesses.append(dict(name='clif_env_precondition_satisfiable', kind='cover'))
     harnesses.append(dict(name='clif_prelude', kind='contract'))
+    harnesses.append(dict(name='clif_prepare_jump_blocks', kind='contract'))
     hs.append(BOUNDED_CFG)
     shapes = {'mov': 0xbf, 'ja': 0x05, 'jeq': 0x1d, 'exit': 0x95}
     quick_shapes = {('mov', 'jeq', 'exit'), ('ja', 'mov', 'exit'), ('jeq', 'mov', 'ja')}
